@@ -6,6 +6,7 @@ import (
 	"go/parser"
 	"go/token"
 	"path/filepath"
+	"slices"
 
 	"github.com/bmatcuk/doublestar/v4"
 	MapSet "github.com/deckarep/golang-set/v2"
@@ -47,9 +48,17 @@ func (facade *PackagesFacade) FSet() *token.FileSet {
 }
 
 func (facade *PackagesFacade) GetAllSourceFiles() []*ast.File {
-	result := make([]*ast.File, 0, len(facade.files))
-	for _, file := range facade.files {
-		result = append(result, file)
+	// Map iteration order is random; walk the files by path so that receivers (and everything
+	// derived from their order) are discovered in the same order on every run
+	fileNames := make([]string, 0, len(facade.files))
+	for fileName := range facade.files {
+		fileNames = append(fileNames, fileName)
+	}
+	slices.Sort(fileNames)
+
+	result := make([]*ast.File, 0, len(fileNames))
+	for _, fileName := range fileNames {
+		result = append(result, facade.files[fileName])
 	}
 	return result
 }
